@@ -83,11 +83,19 @@ fn g_bound(src: &mut Src, obs: &mut Obs) -> CaseResult {
         let mut s2 = Src::new(&words);
         gen_for(b.cmd, &mut s2, &mut info)
     };
-    // make sure list hosts have an element 0
-    if let Some(Step::Index(_)) = b.path.get(1) {
+    // make sure list hosts have the probed element; entries in front of it are the two known
+    // algorithms (so that the filtered list is already full when the probed entry is reached)
+    if let Some(Step::Index(k)) = b.path.get(1) {
         if let Some(Value::Array(a)) = mutate::get_mut(&mut model, &b.path[..1]) {
-            if a.is_empty() {
-                a.push(Value::Map(vec![(Value::text("alg"), Value::int(-7)), (Value::text("type"), Value::text("public-key"))]));
+            let entry = |alg: i64| Value::Map(vec![(Value::text("alg"), Value::int(alg)), (Value::text("type"), Value::text("public-key"))]);
+            if *k > 0 {
+                a.clear();
+                for i in 0..*k {
+                    a.push(entry(if i % 2 == 0 { -7 } else { -8 }));
+                }
+            }
+            while a.len() <= *k {
+                a.push(entry(-7));
             }
         }
     }
